@@ -19,9 +19,10 @@ MANIFEST = {
             'tolerance-equality facts (reflexive, symmetric, verdict below / above EPS) and the angle normal form on small '
             'alphabets, then emits cases with the exact expected values: every box of an alphabet for conversions and polygons '
             '(replayed at scales 1/32..1024, offsets to 8192 and under rigid motions), every one-coordinate change by a delta '
-            'across EPS for both box types in both argument orders, and every multiple of pi/8 over +-8 turns.',
+            'across EPS for both box types in both argument orders (also a box without angle against a box with one: symmetry '
+            'and inequality beyond EPS required), and every multiple of pi/8 over +-8 turns.',
     'note': 'Equality verdicts are required outside a band of +-10 % around EPS and only where the f32 inputs still carry the '
-            'delta (large magnitudes: deltas of 100 EPS only); angle None vs Some(0) and the confidence of Universal2DBox are '
+            'delta (large magnitudes: deltas of 100 EPS only); whether angle None EQUALS an angle within EPS of 0 and the confidence of Universal2DBox are '
             'left open; a normalised angle may equal 2*pi after rounding.'}
 LEVEL = MANIFEST["level"]
 RULE = ("cases = every box of the alphabet for 'conv' (5 scale/offset variants) and 'poly' (3-4 variants), every (type, base "
